@@ -163,6 +163,74 @@ def horizon(h):
     return None  # parameter: set later
 
 
+def fill(b, st, decl, with_method=True, after_init=False):
+    """Declare the content of one stage (symbols, dynamics, constraints, objective, values, guesses, method) on st."""
+    ocp = st
+    b.stage = st; b.decl = decl
+    b.T_free = decl['T']['kind'] == 'free'; b.t0_free = decl['t0']['kind'] == 'free'
+    xb = decl.get('xblocks') or []
+    if xb:
+        # consecutive scalar model states grouped (column-major) into matrix-valued rockit states
+        b.xsyms = []
+        for (r, c) in xb:
+            X = ocp.state(r, c); b.xsyms.append(X)
+            for cc in range(c):
+                for rr in range(r):
+                    b.x.append(X[rr, cc])
+    else:
+        for s in decl['states']:
+            b.x.append(ocp.state(scale=fl(s['scale'])) if fr(s['scale']) != 1 else ocp.state())
+    for s in decl['controls']:
+        b.u.append(ocp.control(scale=fl(s['scale'])) if fr(s['scale']) != 1 else ocp.control())
+    for s in decl['algs']:
+        b.z.append(ocp.algebraic(scale=fl(s['scale'])) if fr(s['scale']) != 1 else ocp.algebraic())
+    pb = decl.get('pblocks') or []
+    b.psyms = []
+    if pb:
+        for (r, c) in pb:
+            Pm = ocp.parameter(r, c); b.psyms.append(Pm)
+            for cc in range(c):
+                for rr in range(r):
+                    b.p.append(Pm[rr, cc])
+    for p in decl['params'][len(b.p):]:
+        b.p.append(ocp.parameter(grid=GRIDKW[p['kind']], include_last=(p['kind'] == 'cp')))
+    for v in decl['vars']:
+        kw = {}
+        if fr(v['scale']) != 1: kw['scale'] = fl(v['scale'])
+        b.v.append(ocp.variable(grid=GRIDKW[v['kind']], include_last=(v['kind'] == 'cp'), **kw))
+    if decl['T']['kind'] == 'par': ocp.set_T(b.p[decl['T']['i'] - 1])
+    if decl['t0']['kind'] == 'par': ocp.set_t0(b.p[decl['t0']['i'] - 1])
+    if xb:
+        i0 = 0
+        for X, (r, c) in zip(b.xsyms, xb):
+            es = [mx(b, decl['rhs'][i0 + k]) for k in range(r * c)]
+            ocp.set_der(X, ca.reshape(ca.vertcat(*es), r, c)); i0 += r * c
+    for i, e in enumerate(decl['rhs'] if not xb else []):
+        if decl['dyn'] == 'next':
+            ocp.set_next(b.x[i], mx(b, e))
+        else:
+            ds = fr(decl['states'][i]['dscale'])
+            if ds != 1: ocp.set_der(b.x[i], mx(b, e), scale=float(ds))
+            else: ocp.set_der(b.x[i], mx(b, e))
+    for e in decl['alg']:
+        ocp.add_alg(mx(b, e))
+    for c in decl['cons']:
+        declare_constraint(b, c)
+    for e in decl['obj']:
+        ocp.add_objective(mx(b, e))
+    i0 = 0
+    for Pm, (r, c) in zip(b.psyms, pb):
+        vals = [fl(decl['params'][i0 + k]['val'][0]) for k in range(r * c)]
+        ocp.set_value(Pm, ca.reshape(ca.DM(vals), r, c)); i0 += r * c
+    for i, p in enumerate(decl['params']):
+        if i < i0: continue
+        if p['val']:
+            ocp.set_value(b.p[i], pval(p, decl['method']['N']))
+    if not after_init:
+        apply_guesses(b, decl)
+    if with_method: ocp.method(mk_method(decl['method']))
+
+
 def build(decl, solver='ipopt', with_method=True, after_init=False):
     """Declare the OCP described by decl on a fresh rockit.Ocp (stdout noise is swallowed)."""
     b = Built(); b.decl = decl
@@ -170,68 +238,56 @@ def build(decl, solver='ipopt', with_method=True, after_init=False):
     with contextlib.redirect_stdout(buf):
         t0 = horizon(decl['t0']); T = horizon(decl['T'])
         ocp = Ocp(t0=0 if t0 is None else t0, T=1 if T is None else T)
-        b.ocp = ocp; b.stage = ocp
-        b.T_free = decl['T']['kind'] == 'free'; b.t0_free = decl['t0']['kind'] == 'free'
-        xb = decl.get('xblocks') or []
-        if xb:
-            # consecutive scalar model states grouped (column-major) into matrix-valued rockit states
-            b.xsyms = []
-            for (r, c) in xb:
-                X = ocp.state(r, c); b.xsyms.append(X)
-                for cc in range(c):
-                    for rr in range(r):
-                        b.x.append(X[rr, cc])
-        else:
-            for s in decl['states']:
-                b.x.append(ocp.state(scale=fl(s['scale'])) if fr(s['scale']) != 1 else ocp.state())
-        for s in decl['controls']:
-            b.u.append(ocp.control(scale=fl(s['scale'])) if fr(s['scale']) != 1 else ocp.control())
-        for s in decl['algs']:
-            b.z.append(ocp.algebraic(scale=fl(s['scale'])) if fr(s['scale']) != 1 else ocp.algebraic())
-        pb = decl.get('pblocks') or []
-        b.psyms = []
-        if pb:
-            for (r, c) in pb:
-                Pm = ocp.parameter(r, c); b.psyms.append(Pm)
-                for cc in range(c):
-                    for rr in range(r):
-                        b.p.append(Pm[rr, cc])
-        for p in decl['params'][len(b.p):]:
-            b.p.append(ocp.parameter(grid=GRIDKW[p['kind']], include_last=(p['kind'] == 'cp')))
-        for v in decl['vars']:
-            kw = {}
-            if fr(v['scale']) != 1: kw['scale'] = fl(v['scale'])
-            b.v.append(ocp.variable(grid=GRIDKW[v['kind']], include_last=(v['kind'] == 'cp'), **kw))
-        if decl['T']['kind'] == 'par': ocp.set_T(b.p[decl['T']['i'] - 1])
-        if decl['t0']['kind'] == 'par': ocp.set_t0(b.p[decl['t0']['i'] - 1])
-        if xb:
-            i0 = 0
-            for X, (r, c) in zip(b.xsyms, xb):
-                es = [mx(b, decl['rhs'][i0 + k]) for k in range(r * c)]
-                ocp.set_der(X, ca.reshape(ca.vertcat(*es), r, c)); i0 += r * c
-        for i, e in enumerate(decl['rhs'] if not xb else []):
-            if decl['dyn'] == 'next':
-                ocp.set_next(b.x[i], mx(b, e))
-            else:
-                ds = fr(decl['states'][i]['dscale'])
-                if ds != 1: ocp.set_der(b.x[i], mx(b, e), scale=float(ds))
-                else: ocp.set_der(b.x[i], mx(b, e))
-        for e in decl['alg']:
-            ocp.add_alg(mx(b, e))
-        for c in decl['cons']:
-            declare_constraint(b, c)
-        for e in decl['obj']:
-            ocp.add_objective(mx(b, e))
-        i0 = 0
-        for Pm, (r, c) in zip(b.psyms, pb):
-            vals = [fl(decl['params'][i0 + k]['val'][0]) for k in range(r * c)]
-            ocp.set_value(Pm, ca.reshape(ca.DM(vals), r, c)); i0 += r * c
-        for i, p in enumerate(decl['params']):
-            if i < i0: continue
-            if p['val']:
-                ocp.set_value(b.p[i], pval(p, decl['method']['N']))
-        if not after_init:
-            apply_guesses(b, decl)
+        b.ocp = ocp
+        fill(b, ocp, decl, with_method=False, after_init=after_init)
         if solver: ocp.solver(solver, {"print_time": False, "ipopt": {"print_level": 0}} if solver == 'ipopt' else {})
         if with_method: ocp.method(mk_method(decl['method']))
     return b
+
+
+def mx_parent(parts, e):
+    """Parent-level expression: St(s, e) evaluates e on stage s."""
+    o = e['op']
+    if o == 'c': return ca.MX(fl(e['v']))
+    if o == 'st':
+        p = parts[e['s'] - 1]
+        return mx(p, e['a'], p.stage)
+    if o in ('add', 'sub', 'mul'):
+        a, c = mx_parent(parts, e['a']), mx_parent(parts, e['b'])
+        return a + c if o == 'add' else a - c if o == 'sub' else a * c
+    a = mx_parent(parts, e['a'])
+    return -a if o == 'neg' else a * a
+
+
+def build_multi(md, solver='ipopt'):
+    """A multi-stage OCP: stages declared directly, or (md['clone']) cloned from one template with overridden t0/T."""
+    from rockit import Stage
+    B = Built(); B.decl = md; B.parts = []
+    buf = io.StringIO()
+    with contextlib.redirect_stdout(buf):
+        ocp = Ocp(); B.ocp = ocp
+        if md.get('clone'):
+            d1 = md['stages'][0]
+            tb = Built(); tb.ocp = ocp
+            tmpl = Stage(t0=horizon(d1['t0']), T=horizon(d1['T']))
+            fill(tb, tmpl, d1)
+            B.template = tmpl; B.template_built = tb
+            for d in md['stages']:
+                st = ocp.stage(tmpl, t0=horizon(d['t0']), T=horizon(d['T']))
+                p = Built(); p.ocp = ocp; p.stage = st; p.decl = d
+                p.x, p.u, p.z, p.p, p.v = tb.x, tb.u, tb.z, tb.p, tb.v
+                B.parts.append(p)
+        else:
+            for d in md['stages']:
+                st = ocp.stage(t0=horizon(d['t0']), T=horizon(d['T']))
+                p = Built(); p.ocp = ocp
+                fill(p, st, d)
+                B.parts.append(p)
+        for c in md['pcons']:
+            l, r = mx_parent(B.parts, c['lhs']), mx_parent(B.parts, c['rhs'])
+            expr = l <= r if c['rel'] == 'le' else l >= r if c['rel'] == 'ge' else l == r
+            ocp.subject_to(expr, meta={"stacktrace": [{"cid": c['cid']}]})
+        for e in md['pobj']:
+            ocp.add_objective(mx_parent(B.parts, e))
+        ocp.solver(solver, {"print_time": False, "ipopt": {"print_level": 0}})
+    return B
